@@ -11,7 +11,7 @@ import random
 
 import vlib, ucheck
 from vlib import VERIF
-from C28 import load_known, report, hx, conformance
+from C28 import load_known, report, hx, conformance, deep_stack
 
 SPEC = os.path.join(VERIF, 'spec', 'syntax')
 # class representatives (same as MC_PctCoding.Sigma)
@@ -81,6 +81,7 @@ def show(c):
 
 
 def run(ctx):
+    deep_stack()
     cfg = os.path.join(ctx.work, 'MC_PctCoding.cfg')
     with open(cfg, 'w') as f:
         f.write('CONSTANT MaxLen = %d\nINIT Init\nNEXT Next\nINVARIANT Laws\nCHECK_DEADLOCK FALSE\n' % (3 if ctx.thorough else 2))
